@@ -112,7 +112,7 @@ def scenario(rng, kind=None, mode=None, removal=None, builtin_p=0.6, prog_p=0.4)
     kind = kind or rng.choice(KINDS)
     mode = mode or rng.choice(["vac", "temp", "press"])
     model = rng.choice(["NRTL", "NRTL", "UNIQUAC"])
-    T0 = rng.uniform(290.0, 380.0)
+    T0 = gen.edge_temperature(rng)          # the whole range of the quantifier, its edges included
     sc = {"mix": mix, "kind": kind, "mode": mode, "model": model, "T0": T0,
           "N": rng.choice([1, 2, 3, 5, 8, 12]), # from a laboratory cell (grams of feed on a few cm2) to a plant
           "A": gen.logu(rng, 1e-4, 1e2), "m0": gen.logu(rng, 1e-3, 1e3),
@@ -228,6 +228,14 @@ def prepare(rng, sc):
 # ----------------------------------------------------------------------------- execution + trace
 def run_process(perv, sc):
     cond = conditions_of(sc)
+    if sc.get("preuse") is not None:
+        # the very same Conditions object has been used before, by a model of ANOTHER mixture (one step): it is still the question asked
+        try:
+            sco = dict(sc)
+            sco["N"] = 1
+            call_model(sc["preuse"], sco, cond)
+        except Exception:  # noqa: BLE001
+            pass
     try:
         model = call_model(perv, sc, cond)
         return {"outcome": "return", "exc": None, "model": model, "cond": cond}
